@@ -43,10 +43,10 @@ CHECKS["C14"] = {
     "level": "other",
     "quick_fs": ["default"],
     "thorough_fs": ["default", "both"],
-    "technique": "MIR path rules with closure inlining and Ok-payload normalisation (`?`, inspect, explicit match): one forwarded call per wrapper method, argument/result pass-through, counter increment term vs declared stream effect",
-    "claim": "For all 36 trait-method implementations of CountBitReader/Writer and DbgBitReader/Writer: every returning path makes exactly one call of the same operation on the inner stream with the wrapper's own arguments and returns that result unchanged (transparency); for the 20 counting methods the counter's increment term on each Ok path (closures passed to Result::inspect are inlined) equals the operation's declared stream effect (n, x+1, len_code(x), returned count, 0 for peek/flush, n for an overridden copy_to/copy_from); a stream method whose effect is not declared is reported. Codes the wrappers do not override run on these primitives, so they are exact iff the primitives are. Err paths are not constrained (the property is silent there).",
+    "technique": "abstract interpretation of every wrapper method with the wrapped stream's operations stubbed (success and failure, tracing on and off, several widths, the written value as a symbolic 64-bit input) and the length functions as tokens; MIR path rules as the fallback when the interpreter refuses the code",
+    "claim": "For every method the counting and tracing wrappers implement (BitRead, BitWrite, BitSeek, gamma/delta/zeta read and write), interpreted with the operations of the wrapped stream replaced by stubs: exactly one operation is performed on the wrapped stream, it is the same operation (or the same code through its sibling method with the same parameter), it receives the method's own arguments - the written value compared as a symbolic input over all 64-bit values, in its low n_bits bits for fixed-width writes of 0, 1, 13 and 64 bits - and its result is returned unchanged, whether it succeeds or fails and whether tracing is on or off. For the counting wrappers the counter moves, on success, by exactly the declared effect of the operation (n for reads/skips of n bits, result+1 for read_unary, the returned length for writes, the length function of the code's family applied to the value read - with the method's parameter - for code reads, n for bulk copies, 0 for peeks, seeks, flush) and the constructors start it at 0. What a failed operation consumed is not constrained. Exactness of the length functions is C06.",
     "note": "Trusted: rustc MIR, exporter, std contract of Result::inspect (calls the closure with &T on Ok, returns self), declared effects table (DESIGN.md appendix B), exactness of len_* (C06).",
-    "explanation": "Structural over all wrapper methods: forwarding shape and symbolic counter increments on every path.",
+    "explanation": "Wrapper methods interpreted with the wrapped stream stubbed against the forwarding + declared-effect model.",
 }
 
 CHECKS["C15"] = {
